@@ -8,6 +8,22 @@ func init() {
 		PBlock: 220,
 	}
 
+	cdpGensAll := func(w *World) []OpGen { return append(cdpGens(), liqGens()...) }
+	scenarios["cdp+export"] = &Scenario{
+		Name: "cdp+export", NActors: cdpActors, Draw: drawCdpConfig,
+		Setup: func(w *World) { setupCdp(w); w.warmOracle() },
+		Gens:  c20Gens(cdpGensAll), PBlock: 220,
+	}
+	props["C20"] = &PropSpec{
+		ID: "C20", Level: "exploration", Scenarios: []string{"cdp+export"},
+		NewHarness: func(spec *PropSpec) Harness { return &c20Harness{spec: spec} },
+		Quick:      Budget{Runs: 64, MaxEvents: 160},
+		Thorough:   Budget{Runs: 3000, MaxEvents: 500},
+		Essential:  []string{"c20.exported_and_imported", "c20.state_compared"},
+		BatchProbe: []string{"c20.exported_and_imported", "c20.state_compared", "c20.continuation_tx_compared"},
+		Rule: "one case = one seeded run: a workload builds state, at a PRNG-chosen block the committed state is exported with ExportAppStateAndValidators and a fresh chain is initialised from it; the same continuation events are then applied to both chains; compared: raw ordered contents of every DeFi module store and all non-staking bank balances/supply right after import, after every continuation block and at the end, plus code/log/events of every continuation tx; distinct = distinct digest of the event stream; non-trivial = export+import happened and state was compared",
+		Assume: []string{"key prefixes classified by hand as history/archive are reported as informational only (none so far)", "staking/distribution bookkeeping of the base denom is outside the compared set"},
+	}
 	props["C01"] = &PropSpec{
 		ID: "C01", Level: "exploration", Scenarios: []string{"cdp"},
 		Oracles:   func(w *World) []Oracle { return []Oracle{&c01Oracle{}} },
